@@ -8,6 +8,8 @@ import AnthemModel.Model.Gamma
 import AnthemModel.Semantics.Asp
 import AnthemModel.Model.TauStar
 import AnthemModel.Model.Problem
+import AnthemModel.Model.External
+import AnthemModel.Proofs.ExternalSemPh
 open Anthem Anthem.Window
 
 def domToSexp : Dom → Sexp
@@ -342,3 +344,181 @@ def cexStrong (left right : Program) (fwd bwd : Bool) (ps : List Problem) (seed 
           "some emitted problem refuted by the merged interpretation  vs  H subset T and (H,T) separates the programs in a requested direction" a b), r')
       else (none, r')
     | _, _ => (none, r')
+
+/-! ## external equivalence (program against program, no placeholders, no proof outline):
+    emitted problems vs the reference semantics of the two programs -/
+
+def restrictInterp (I : FinInterp) (sig : List Pred) : FinInterp :=
+  { I with preds := I.preds.filter fun e => sig.contains ⟨e.1, e.2.1⟩ }
+
+/-- all sub-interpretations of `T` that keep the input extents; `none` when there are too many -/
+def subInterps (T : FinInterp) (ins : List Pred) : Option (List FinInterp) :=
+  let free := T.preds.flatMap fun e => if ins.contains ⟨e.1, e.2.1⟩ then [] else e.2.2.map fun t => (e.1, e.2.1, t)
+  if free.length > 10 then none else
+  let subsets := free.foldl (fun (acc : List (List (String × Nat × List Dom))) a => acc ++ acc.map (a :: ·)) [[]]
+  some (subsets.filterMap fun sub =>
+    if sub.length == free.length then none else
+    some { T with preds := T.preds.map fun e =>
+      if ins.contains ⟨e.1, e.2.1⟩ then e
+      else (e.1, e.2.1, e.2.2.filter fun t => sub.any fun a => a.1 == e.1 && a.2.1 == e.2.1 && a.2.2 == t) })
+
+open Anthem.Asp in
+/-- bounded stable-model test with input predicates -/
+def stableB (P : Program) (ins : List Pred) (J : FinInterp) : Option Bool := do
+  let T := restrictInterp J (ext P.preds ins)
+  let sat ← progB T T false P
+  if !sat then some false else
+  let subs ← subInterps T ins
+  let anyModel ← subs.foldl (fun acc H => do
+    let a ← acc
+    if a then some true else progB H T true P) (some false)
+  some (!anyModel)
+
+open Anthem.Asp in
+/-- the private predicates have exactly the supported extents (classical completion of their rules) -/
+def privSupportedB (P : Program) (priv : List Pred) (J : FinInterp) : Option Bool :=
+  priv.foldl (fun acc q => do
+    let ok ← acc
+    let dom := J.window .general
+    let tups := tuples dom q.arity
+    let rules := P.filter fun r => r.head.predicate == some q
+    let good ← tups.foldl (fun acc2 ds => do
+      let ok2 ← acc2
+      let supported ← rules.foldl (fun acc3 r => do
+        let s ← acc3
+        if s then some true else
+        (substsB dom r.vars).foldl (fun acc4 σ => do
+          let s4 ← acc4
+          if s4 then some true else
+          let bs ← r.body.mapM (bodyAtomB J J false σ)
+          if !bs.all id then some false else
+          match r.head.terms with
+          | some args => do
+            let hs ← tuplesB σ args
+            some (hs.contains ds)
+          | none => some false) (some false)) (some false)
+      some (ok2 && (J.holds q.symbol ds == supported))) (some true)
+    some (ok && good)) (some true)
+
+/-- read the right program's clashing private predicates through their `_p` copies -/
+def renamedView (clash : List Pred) (J : FinInterp) : FinInterp :=
+  { J with preds := J.preds.filterMap fun e =>
+      if clash.contains ⟨e.1, e.2.1⟩ then none
+      else
+        match clash.find? (fun q => q.symbol ++ "_p" == e.1 && q.arity == e.2.1) with
+        | some q => some (q.symbol, e.2.1, e.2.2)
+        | none => some e }
+
+open Anthem.Asp in
+/-- one bottom-up pass: add the heads of the basic rules (and, by coin flip, of the choice rules)
+    whose bodies hold in `T`; only predicates in `only` (all when empty) are touched -/
+def growOnce (P : Program) (only : List Pred) (T : FinInterp) (r : Rng) : FinInterp × Rng :=
+  P.foldl (fun (acc : FinInterp × Rng) rule =>
+    match rule.head with
+    | .falsity => acc
+    | .basic a | .choice a =>
+      if !only.isEmpty && !only.contains a.predicate then acc else
+      let isChoice := match rule.head with | .choice _ => true | _ => false
+      (substsB (T.window .general) rule.vars).foldl (fun (acc2 : FinInterp × Rng) σ =>
+        let I := acc2.1
+        match rule.body.mapM (bodyAtomB I I false σ), tuplesB σ a.args with
+        | some bs, some hs =>
+          if !bs.all id then acc2 else
+          let (k, r') := if isChoice then acc2.2.below 2 else (0, acc2.2)
+          if k == 1 then (I, r') else
+          let hs := hs.filter fun ds => ds.all fun d => (I.window .general).contains d
+          let preds :=
+            if I.preds.any (fun e => e.1 == a.pred && e.2.1 == a.args.length) then
+              I.preds.map fun e => if e.1 == a.pred && e.2.1 == a.args.length
+                then (e.1, e.2.1, hs.foldl (fun l ds => if l.contains ds then l else l ++ [ds]) e.2.2) else e
+            else I.preds ++ [(a.pred, a.args.length, hs.foldl (fun l ds => if l.contains ds then l else l ++ [ds]) [])]
+          ({ I with preds := preds }, r')
+        | _, _ => acc2) acc) (T, r)
+
+open Anthem.Asp in
+def growN (P : Program) (only : List Pred) : Nat → FinInterp → Rng → FinInterp × Rng
+  | 0, T, r => (T, r)
+  | n + 1, T, r =>
+    let (T', r') := growOnce P only T r
+    growN P only n T' r'
+
+open Anthem.Asp in
+def cexExternal (t : ExternalTask) (ps : List Problem) (seed tries : Nat) : Sexp :=
+  if !t.proofOutline.isEmpty then .list [.atom "skipped-outline"] else
+  let m := mkPlaceholderMap t.userGuide.placeholders
+  let (PL0, S) : Program × Specification := match t.specification with
+    | .inl PL => (PL, [])
+    | .inr S => ([], S.map (SAnn.replacePlaceholders m))
+  let isProg := match t.specification with | .inl _ => true | .inr _ => false
+  let fs := ps.flatMap fun p => p.formulas.map (·.formula)
+  let ref := tauStar PL0 ++ tauStar t.program ++ S.map (·.formula)
+  -- only tasks without arithmetic: every value of a term is a constant of the task or a window element,
+  -- so the evaluation over a window that contains all mentioned constants is exact for that structure
+  let arith : Term → Bool := fun t => (match t with | .pre _ | .var _ => false | _ => true)
+  let bodyTermsOf : BodyAtom → List Term := fun b => (match b with | .lit l => l.atom.args | .cmp _ l r => [l, r])
+  let ruleTerms := fun (r : Rule) => (r.head.terms.getD []) ++ r.body.flatMap bodyTermsOf
+  let nums := ((ref.flatMap formulaNums) ++ (fs.flatMap formulaNums)).foldl ins [0]
+  let symsAll := ((ref ++ fs).flatMap Formula.symbols).foldl ins ["a"]
+  if (PL0 ++ t.program).any (fun r => (ruleTerms r).any arith) || nums.length > 3 || symsAll.length > 3 then
+    .list [.atom "skipped-arith"] else
+  let base : FinInterp := { ints := nums.mergeSort (· ≤ ·), syms := symsAll, preds := [], fcs := [] }
+  if fs.any (fun F => evalCostW base F > 400000) || (PL0 ++ t.program).any (fun r => r.vars.length > 3) then
+    .list [.atom "skipped"] else
+  let ins := t.userGuide.inputs
+  let clash := t.specPrivate.filter (· ∈ t.progPrivate)
+  let allPreds := ext (ext (ext (ext PL0.preds t.program.preds) ins) (clash.map fun q => ⟨q.symbol ++ "_p", q.arity⟩)) (specPreds S)
+  -- the known finding: a renamed private predicate collides with a predicate of that name
+  if clash.any (fun q => (ext (ext PL0.preds t.program.preds) (specPreds S)).contains ⟨q.symbol ++ "_p", q.arity⟩) then
+    .list [.atom "skipped-known-rename-clash"] else
+  let fwd := t.direction == .universal || t.direction == .forward
+  let bwd := t.direction == .universal || t.direction == .backward
+  let ugs := (t.userGuide.formulas.filter fun a => a.role == .assumption).map (SAnn.replacePlaceholders m)
+  searchLoop tries ⟨seed.toUInt64⟩ fun r =>
+    let (fcs, rf) := randomFcs base t.userGuide.placeholders r
+    let baseF := { base with fcs := fcs }
+    let ν := phNu m (fun c s => baseF.fc c s)
+    let PL := PL0.substSym ν
+    let PR := t.program.substSym ν
+    let (mode, r0) := rf.below 4
+    let (text, ra) := randomExtents baseF (if mode == 0 then allPreds else ins) r0
+    let empty : List (String × Nat × List (List Dom)) := allPreds.filterMap fun q =>
+      if text.any (fun e => e.1 == q.symbol && e.2.1 == q.arity) then none else some (q.symbol, q.arity, [])
+    let J0 : FinInterp := { baseF with preds := text ++ empty }
+    let (J, r1) :=
+      if mode == 0 then (J0, ra) else
+      let (first, second) := if mode == 2 || !isProg then (PR, PL) else (PL, PR)
+      let (J1, rb) := growN first [] 4 J0 ra
+      let privSecond := if mode == 2 || !isProg then t.specPrivate else t.progPrivate
+      let (J2, rc) := if isProg then growN second privSecond 3 J1 rb else (J1, rb)
+      let copyOf := fun (e : String × Nat × List (List Dom)) =>
+        (clash.find? (fun q => q.symbol ++ "_p" == e.1 && q.arity == e.2.1)).bind fun q =>
+          J2.preds.find? (fun e' => e'.1 == q.symbol && e'.2.1 == q.arity)
+      let newPreds := J2.preds.map fun e => ((copyOf e).map fun e' => (e.1, e.2.1, e'.2.2)).getD e
+      let J3 : FinInterp := { J2 with preds := newPreds }
+      if mode == 3 then
+        let (k, rd) := rc.below (J3.preds.length + 1)
+        ({ J3 with preds := J3.preds.mapIdx fun i e => if i == k then (e.1, e.2.1, e.2.2.drop 1) else e }, rd)
+      else (J3, rc)
+    let eval := fun (J : FinInterp) => do
+      let refuted := ps.any (refutedB J)
+      let ug := ugs.all fun a => evalHtF J J a.formula false []
+      let JR := renamedView clash J
+      let sr ← stableB PR ins JR
+      let pr ← privSupportedB PR t.progPrivate JR
+      if isProg then do
+        let sl ← stableB PL ins J
+        let pl ← privSupportedB PL t.specPrivate J
+        some (refuted, ug && ((fwd && sl && pr && !sr) || (bwd && sr && pl && !sl)))
+      else
+        let tr := fun (a : SAnn) => evalHtF J J a.formula false []
+        let st := S.all fun a => !lStable a || tr a
+        let fp := S.all fun a => !lFwdPrem a || tr a
+        let bc := S.any fun a => lBwdConc a && !tr a
+        some (refuted, ug && st && pr && ((fwd && fp && !sr) || (bwd && sr && bc)))
+    match eval J, eval J with
+    | some (a, b), some (a', b') =>
+      if a != b && a == a' && b == b' then
+        (some (witness J none []
+          "some emitted problem refuted by the interpretation  vs  it witnesses a difference between the two sides (reference semantics over the finite structure shown, placeholders replaced by their values; task without arithmetic)" a b), r1)
+      else (none, r1)
+    | _, _ => (none, r1)
